@@ -8,4 +8,5 @@ mkdir -p bin evidence replays work
 ( cd harness && cat /repo/go.sum /repo/server/go.sum /repo/client/go.sum go.sum.extra | sort -u > go.sum \
   && go build -tags verif -o ../bin/vcheck ./cmd/vcheck \
   && go build -race -tags verif -o ../bin/vcheck-race ./cmd/vcheck )
+( cd /repo/server && go build -tags verif -o /verif/bin/orda-server . )
 echo "setup ok"
